@@ -10,6 +10,13 @@ import Nstd.Rc.Nested
     xcopy d s | xassign d s | xclear d | xsets d hex | xelem d hex
     pnew d x | pcopy d s | passign d s | pclear d | pswap a b
     vpushv d s | vgetv d s k | xaddc d s | xgetc d s k | apushv d s | agetv d s k    (payloads with several embedded handles, see Nested.lean)
+    round 7 (a line is resolved to its call in the state in which the call STARTS):
+    slitc d k (String(const char(&)[N]), k-th literal of `lits`) | scap d n (String(usize capacity)) | slitu d hex (attach to
+    unterminated memory) | sconst d / sconstm d (operator const char*() const / non-const) | sdetach d (detach()) |
+    sapps d s (append(const String&)) | sappc d c (append(char)) | spluss d s / splusc d c (operator+=) |
+    spreps d s (prepend(const String&)) | supper d (toUpperCase) |
+    vctors d hex | vctorl d x | vctora d x | vctorm d k x (Variant(const String&/List&/Array&/HashMap&)) |
+    xctors d hex | xctore d hex (Xml::Variant(const String&) / (const Element&))
     end                      (destroy every handle)
   Observation after every op:
     `<16 handle tokens> | <payload table> | live=<n> bad=<n>`
@@ -36,7 +43,7 @@ open Nstd.Common
 namespace Nstd.Rc
 
 structure Thr where
-  prog : List NOp := []         -- API calls not yet started
+  prog : List (List String) := []   -- API calls not yet started (op lines; resolved to a call when the call starts)
   acts : List Act := []         -- remaining steps of the current phase
   inPre : Option NOp := none    -- call whose `pre` phase is running (its `post` is still to be computed)
   started : Bool := false
@@ -186,8 +193,37 @@ def parseFlat (ws : List String) : Option ApiOp :=
   | ["vsetm", d, k, x] => do pure (.vSetMap (← idx 1 d) (← num k) (← num x))
   | _ => none
 
-def parseOp (ws : List String) : Option NOp :=
+/-- the literals of `slitc` (harness: the same table) -/
+def lits : List (List Nat) := [[], [97, 98], [97, 98, 99, 100]]
+
+def upperByte (c : Nat) : Nat := if 97 ≤ c ∧ c ≤ 122 then c - 32 else c
+
+/-- an op line is resolved to its call in the state in which the call starts (`append(const String&)` reads the bytes of its
+    argument, a handle of the calling thread, at that moment) -/
+def parseOp (st : St) (ws : List String) : Option NOp :=
   match ws with
+  | ["slitc", d, k] => do
+    let k ← num k
+    if k < lits.length then pure (.flat (.sLit (← idx 0 d) (lits.getD k []))) else none
+  | ["scap", d, n] => do pure (.sCap (← idx 0 d) (← num n))
+  | ["slitu", d, h] => do pure (.sLitU (← idx 0 d) (← fromHex h))
+  | ["sconst", d] => do pure (.sConst (← idx 0 d))
+  | ["sconstm", d] => do pure (.sConst (← idx 0 d))
+  | ["sdetach", d] => do pure (.flat (.sEdit (← idx 0 d) 2 0 0))
+  | ["sapps", d, s] => do pure (.flat (.sAppend (← idx 0 d) (viewVal st (← idx 0 s))))
+  | ["spluss", d, s] => do pure (.flat (.sAppend (← idx 0 d) (viewVal st (← idx 0 s))))
+  | ["sappc", d, c] => do pure (.flat (.sAppend (← idx 0 d) [← num c]))
+  | ["splusc", d, c] => do pure (.flat (.sAppend (← idx 0 d) [← num c]))
+  | ["spreps", d, s] => do pure (.flat (.sPrepend (← idx 0 d) (viewVal st (← idx 0 s))))
+  | ["supper", d] => do
+    let d ← idx 0 d
+    pure (.sEditTo d ((viewVal st d).map upperByte))
+  | ["vctors", d, h] => do pure (.boxCtor (← idx 1 d) tagVStr (← fromHex h))
+  | ["vctorl", d, x] => do pure (.boxCtor (← idx 1 d) tagVList [← num x])
+  | ["vctora", d, x] => do pure (.boxCtor (← idx 1 d) tagVArr [← num x])
+  | ["vctorm", d, k, x] => do pure (.boxCtor (← idx 1 d) tagVMap [← num k, ← num x])
+  | ["xctors", d, h] => do pure (.boxCtor (← idx 2 d) tagXText (← fromHex h))
+  | ["xctore", d, h] => do pure (.boxCtor (← idx 2 d) tagXElem (← fromHex h))
   | ["vpushv", d, s] => do pure (.vPushV (← idx 1 d) (← idx 1 s))
   | ["vgetv", d, s, k] => do pure (.vGetV (← idx 1 d) (← idx 1 s) (← num k))
   | ["xaddc", d, s] => do pure (.xAddC (← idx 2 d) (← idx 2 s))
@@ -241,9 +277,12 @@ partial def refill (d : DSt) (tid : Nat) : DSt :=
       refill { d with thr := d.thr.set tid t' } tid
     | none => match t.prog with
       | [] => d
-      | op :: r =>
-        let t' := { t with acts := preN d.st tid op, inPre := some op, prog := r }
-        refill { d with thr := d.thr.set tid t' } tid
+      | ws :: r =>
+        match parseOp d.st ws with
+        | some op =>
+          let t' := { t with acts := preN d.st tid op, inPre := some op, prog := r }
+          refill { d with thr := d.thr.set tid t' } tid
+        | none => { d with bad := true, thr := d.thr.set tid { t with prog := [] } }
 
 def finished (d : DSt) (tid : Nat) : Bool :=
   let d' := refill d tid
@@ -367,11 +406,11 @@ def stepLine (d : DSt) (ws : List String) : DSt × String :=
       else (d, "bad-op")
     | _, _ => (d, "bad-op")
   | "prog" :: tid :: rest =>
-    match tid.toNat?, (if wellTyped d.st rest then parseOp rest else none) with
-    | some tid, some op =>
+    match tid.toNat?, (if wellTyped d.st rest then parseOp d.st rest else none) with
+    | some tid, some _ =>
       if 0 < tid ∧ tid < nThreads then
         let t := d.thr.getD tid {}
-        ({ d with thr := d.thr.set tid { t with prog := t.prog ++ [op] } }, "ok")
+        ({ d with thr := d.thr.set tid { t with prog := t.prog ++ [rest] } }, "ok")
       else (d, "bad-op")
     | _, _ => (d, "bad-op")
   | "run" :: sched =>
@@ -388,7 +427,7 @@ def stepLine (d : DSt) (ws : List String) : DSt × String :=
       else (d, "bad-op")
     | none => (d, "bad-op")
   | _ =>
-    match (if wellTyped d.st ws then parseOp ws else none) with
+    match (if wellTyped d.st ws then parseOp d.st ws else none) with
     | none => (d, "bad-op")
     | some op =>
       match apiStepN d.st 0 op with
